@@ -137,6 +137,8 @@ def run(ctx):
         if res.violated:
             raise tlc.MachineryError('RunMode violates %s on stream %s' % (res.violated, s))
         rep.add_tlc(res, 'P1 RunMode stream %s: Delivered / AllBeforeStatus / StatusPropagated / NeverInitial / Terminates over all chunkings and interleavings' % s)
+        import witness
+        witness.require(rep, 'MC_RunMode.tla', 'MC_RunMode_%s.cfg' % s)
     # P2: real processes
     tmp = tempfile.mkdtemp(prefix='c13-', dir=os.path.join(tlc.OUT, 'tmp'))
     cases = []
